@@ -275,6 +275,12 @@ func zzCheckProofs(tree *CompactMerkleTree, leaves [][]byte, m, n int, withEmpty
 		zzsym.Assert(err != nil && err2 != nil, "no inclusion proof for an index outside the tree")
 	}
 	if m >= 1 || withEmptyOld {
+		if m < n {
+			// VerifyConsistency starts with "old root == new root => accept". Inputs on which two different
+			// prefixes have the same root are therefore accepted trivially; leaving them out spares the solver
+			// the search for such a hash coincidence on every path.
+			zzsym.Assume(rootM != rootN)
+		}
 		cproof := tree.ConsistencyProof(uint32(m), uint32(n))
 		zzsym.Assert(v.VerifyConsistency(uint32(m), uint32(n), rootM, rootN, cproof) == nil,
 			"consistency proof between any two sizes is accepted by VerifyConsistency")
